@@ -431,9 +431,7 @@ def spec_violation(case, impl, replies):
     numeric = dict(zip(_seen_ips(impl), _py(replies[1])[0]))
     obs = impl["obs"]
     n = _expected_count(case)
-    if len(obs) != n:
-        return "handler saw %d requests, %d were sent completely" % (len(obs), n)
-    for i, o in enumerate(obs):
+    for i, o in enumerate(obs[:len(case["reqs"])]):
         ip, proto = o[0], o[1]
         if proto not in ("http", "https"):
             return "request %d: protocol %r" % (i, proto)
@@ -446,6 +444,8 @@ def spec_violation(case, impl, replies):
             if w[1] is True:
                 return "request %d: every X-Forwarded-For entry is a trusted proxy; remote_ip %r, socket address expected" % (i, ip)
             return "request %d: remote_ip %r, the headers call for %s" % (i, ip, " or ".join(repr(x) for x in w[0]))
+    if len(obs) != n:
+        return "handler saw %d requests, %d were sent completely on a connection still open" % (len(obs), n)
     if _ends_raising(case):
         return None       # the connection was closed by the failing callback: there is no later request to protect
     if impl["final"] != [_sock(case), _proto(case)] or (not _aborted(case) and impl["mid"] != [_sock(case), _proto(case)]):
